@@ -35,6 +35,11 @@ def edit_distance(s, t, int maxdiff=-1):
 	cdef char* tv
 
 
+	# A band that is at least as wide as the longer string cannot cut anything off
+	# (and j + e + 1 below would overflow for bands close to INT_MAX)
+	if e != -1 and e >= max(m, n):
+		e = -1
+
 	# Return early if string lengths are too different
 	if e != -1 and abs(m - n) > e:
 		return abs(m - n)
